@@ -643,8 +643,19 @@ impl RawSut {
                 let Some(name) = self.pick(*r) else { return Ok(()) };
                 let new = pool_name(*new);
                 if self.model.contains_key(&new) {
-                    // refused request: generated deliberately only by C13
-                    return Ok(());
+                    if new == name {
+                        return Ok(());
+                    }
+                    // a request the library refuses (C13 establishes that the refusal has no effect): issued here too,
+                    // so that the histories of the other checks continue after a refused request
+                    let h = self.handle(&name)?;
+                    return match h.rename(&new) {
+                        Err(_) => {
+                            obs.label("rename:refused(existing name)");
+                            Ok(())
+                        }
+                        Ok(()) => Err(format!("rename '{}' -> '{}' succeeded although a region of that name exists", short(&name), short(&new))),
+                    };
                 }
                 let h = self.handle(&name)?;
                 h.rename(&new).map_err(|e| format!("rename '{}' -> '{}' failed: {e}", short(&name), short(&new)))?;
